@@ -251,6 +251,10 @@ def judge(sc, case, snaps, published, rclock):
                         if 0 <= m < 200 and pids[m] != pid:
                             V.append({"mech": "timing_wrong_pid", "detail": f"TIMING at {st}: ModulePID[{m}]={pids[m]} declared {pid}"})
                             break
+                    stale = [(i, pids[i]) for i in range(1, 200) if pids[i] and i not in snap]
+                    C["pid_slots_of_absent_modules_checked"] = C.get("pid_slots_of_absent_modules_checked", 0) + 199 - len(snap)
+                    if stale:
+                        V.append({"mech": "timing_pid_for_absent_module", "detail": f"TIMING at {st}: ModulePID{stale[:4]} but no connected module holds that id"})
             tcount = Counter()
             continue
         if not is_pub and f.msg_type == W.MT_ACK and f.src_mod == 0 and f.dest_mod == mid:
